@@ -45,6 +45,13 @@ impl<'d> SimdOp for Quantize<'_, 'd, u8> {
 
         let zp_vec = i32_ops.splat(self.zero_point as i32);
         let scale_vec = src_ops.splat(self.inv_scale);
+
+        // Range to clamp scaled values to before converting to int. Values
+        // outside of this range always saturate to 0 or 255 after adding the
+        // zero point, and float to int conversion does not saturate on all
+        // platforms.
+        let min_vec = src_ops.splat(-256.);
+        let max_vec = src_ops.splat(511.);
         let f32_v_len = src_ops.len();
 
         // Generate one vector of u8 elements in each iteration by quantizing
@@ -56,6 +63,7 @@ impl<'d> SimdOp for Quantize<'_, 'd, u8> {
             let src = src_ops.load_many::<4>(src_chunk);
             let quant_i32 = src.map(|x| {
                 let y = src_ops.mul(x, scale_vec);
+                let y = src_ops.min(src_ops.max(y, min_vec), max_vec);
                 let y = src_ops.to_int_round(y);
                 i32_ops.add(y, zp_vec)
             });
@@ -67,9 +75,8 @@ impl<'d> SimdOp for Quantize<'_, 'd, u8> {
 
         // Quantize tail elements.
         for src in src_chunks.remainder() {
-            let y = (src * self.inv_scale).round_ties_even() as i32;
-            let y = (y + self.zero_point as i32).clamp(0, u8::MAX as i32);
-            dest_writer.write_scalar(y as u8);
+            let y = (src * self.inv_scale).round_ties_even() + self.zero_point as f32;
+            dest_writer.write_scalar(y as u8); // Saturating cast
         }
 
         dest_writer.into_mut_slice()
